@@ -208,7 +208,7 @@ func TestVerifC14Exec(t *testing.T) {
 		if id == c14Directed {
 			rawCount = 1 << 62
 		} else if id > c14Directed && rng.Intn(25) == 0 {
-			rawCount = []uint64{873813, 873814, 1 << 32, 1 << 62, ^uint64(0)}[rng.Intn(5)]
+			rawCount = []uint64{873814, 1 << 32, 1 << 62, ^uint64(0)}[rng.Intn(4)]
 		}
 		if rawCount != 0 {
 			p.prog = nil
@@ -298,6 +298,7 @@ func TestVerifC14Exec(t *testing.T) {
 				copy(raw, req.FileContractID[:])
 				binary.LittleEndian.PutUint64(raw[32:], rawCount)
 				rerr = s.WriteResponse(&raw)
+				s.SetDeadline(time.Now().Add(3 * time.Second))
 			} else {
 				rerr = s.WriteResponse(&req)
 			}
